@@ -354,6 +354,11 @@ def empty : PyVal := .dict []
 /-- state after a history of calls (refused calls included: they return the state they leave) -/
 def runOps (s : PyVal) (ops : List AddOp) : PyVal := ops.foldl (fun st op => (step st op).1) s
 
+/-- mapping after a history of `Rpms.add` calls (refused ones included) -/
+def runRpms (s : PyVal) (h : List RpmsArgs) : PyVal := h.foldl (fun st a => (Rpms.add st a).1) s
+def runModules (s : PyVal) (h : List ModulesArgs) : PyVal := h.foldl (fun st a => (Modules.add st a).1) s
+def runExtra (s : PyVal) (h : List ExtraArgs) : PyVal := h.foldl (fun st a => (ExtraFiles.add st a).1) s
+
 /-- state and outcome after every call -/
 def trace (s : PyVal) : List AddOp → List (PyVal × Out)
   | [] => []
